@@ -40,6 +40,8 @@ fn dispatch(line: &str) -> String {
         "abort" => server::abort_line(&toks),
         "timing" => server::timing_line(&toks),
         "errstop" => server::errstop_line(&toks),
+        "wrqsilent" => server::wrqsilent_line(&toks),
+        "staleretx" => server::staleretx_line(&toks),
         "multi" => multi::multi_line(&toks),
         "cli" => client::cli_line(&toks),
         _ => "bad-op".to_string(),
